@@ -4,7 +4,7 @@
 From Coq Require Import List ZArith Lia Bool Arith.
 From Coq Require Import Strings.Byte.
 From WH Require Import lib.Bytes lib.Ralph lib.RalphLoop gen.Extracted gen.ExtractedRalVerify gen.ExtractedContractVerify.
-From WH Require Import model.Vaa model.Contracts model.RalVerifyModel proofs.QuorumProofs.
+From WH Require Import model.Vaa model.Contracts model.RalVerifyModel proofs.QuorumProofs proofs.ContractVerifyProofs proofs.LayoutProofs.
 Import ListNotations.
 Import ExtractedRalVerify.RalVerify.
 Open Scope Z_scope.
@@ -245,6 +245,88 @@ Proof.
   destruct (slice bd 53 (length bd)) as [pl|] eqn:Epl; [|reflexivity]. cbn [rlet option_map fst].
   cbn [rv_gsidx rv_numsigs rv_sig_records rv_hashed rv_echain rv_tchain rv_eaddr rv_seq rv_payload].
   rewrite Egov, Eg. unfold set_size. rewrite Enb, En0, Eq, Equo, Erok. reflexivity.
+Qed.
+
+
+(* ------------------------------------------------------------------ corollaries *)
+Lemma set_size_nonneg g n : set_size g = Some n -> 0 <= n.
+Proof. unfold set_size. destruct (slice g 0 1); [|discriminate]. intros E. injection E as <-. apply unbe_nonneg. Qed.
+
+(* accepted exactly when the byte-level parse succeeds and every test of the property passes; the values handed back are the parsed
+   fields; None (abort) in every other case *)
+Theorem ral_source_accepts_iff s gov data rets :
+  ral_source keccak ecrecover s gov data = Some rets <->
+  exists r g n, ral_parse data = Some r /\ (gov = true -> rv_gsidx r = gs_cur_idx s) /\ guardians_for s (rv_gsidx r) = Some g /\
+    set_size g = Some n /\ n <> 0 /\ go_quorum n <= rv_numsigs r /\
+    recs_ok ecrecover (keccak (keccak (rv_hashed r))) g (-1) (rv_sig_records r) = true /\
+    rets = [RZ (rv_echain r); RZ (rv_tchain r); RB (rv_eaddr r); RZ (rv_seq r); RB (rv_payload r)].
+Proof.
+  rewrite ral_source_eq. unfold ral_accepts. split.
+  - destruct (ral_parse data) as [r|]; [|discriminate].
+    destruct (gov && negb (rv_gsidx r =? gs_cur_idx s)) eqn:Egov; [discriminate|].
+    destruct (guardians_for s (rv_gsidx r)) as [g|] eqn:Eg; [|discriminate].
+    destruct (set_size g) as [n|] eqn:En; [|discriminate].
+    destruct (n =? 0) eqn:En0; [discriminate|].
+    destruct (go_quorum n <=? rv_numsigs r) eqn:Eq; [|discriminate]. cbn [negb].
+    destruct (recs_ok ecrecover (keccak (keccak (rv_hashed r))) g (-1) (rv_sig_records r)) eqn:Er; [|discriminate].
+    cbn [option_map rets_of]. intros E. injection E as <-. exists r, g, n.
+    repeat apply conj; try reflexivity; try assumption; [|apply Z.eqb_neq; exact En0|apply Z.leb_le; exact Eq].
+    intros ->. cbn [andb] in Egov. apply negb_false_iff, Z.eqb_eq in Egov. exact Egov.
+  - intros [r [g [n [-> [Hg [-> [-> [Hn [Hq [-> ->]]]]]]]]]].
+    assert (Egov : gov && negb (rv_gsidx r =? gs_cur_idx s) = false).
+    { destruct gov; [|reflexivity]. rewrite (Hg eq_refl), Z.eqb_refl. reflexivity. }
+    rewrite Egov. apply Z.eqb_neq in Hn. apply Z.leb_le in Hq. rewrite Hn, Hq. reflexivity.
+Qed.
+
+(* the decision of the translated function IS x_contractverify's ral_parse_and_verify (the guards around the quorum test, translated
+   separately) with its oracle bit instantiated by the verdict of the translated signature loop: C07's theorems about
+   ral_parse_and_verify are theorems about the one translated entry point *)
+Definition is_some {A} (o : option A) : bool := match o with Some _ => true | None => false end.
+
+Theorem ral_source_decision s gov data r g n :
+  ral_parse data = Some r -> guardians_for s (rv_gsidx r) = Some g -> set_size g = Some n ->
+  is_some (ral_source keccak ecrecover s gov data) =
+  ral_parse_and_verify ral_version_byte ral_version_byte (rv_gsidx r) (gs_cur_idx s) n (rv_numsigs r) gov
+    (recs_ok ecrecover (keccak (keccak (rv_hashed r))) g (-1) (rv_sig_records r)).
+Proof.
+  intros Hp Hg Hn. apply eq_true_iff_eq. rewrite (ral_accepts_iff _ _ _ _ _ _ _ _ (set_size_nonneg g n Hn)).
+  split.
+  - destruct (ral_source keccak ecrecover s gov data) as [rets|] eqn:E; [|discriminate]. intros _.
+    apply ral_source_accepts_iff in E. destruct E as [r' [g' [n' [Hp' [Hgov [Hg' [Hn' [N0 [Hq [Hr _]]]]]]]]]].
+    rewrite Hp in Hp'. injection Hp' as <-. rewrite Hg in Hg'. injection Hg' as <-. rewrite Hn in Hn'. injection Hn' as <-.
+    repeat apply conj; assumption || reflexivity.
+  - intros [_ [Hgov [N0 [Hq Hr]]]].
+    destruct (ral_source keccak ecrecover s gov data) as [rets|] eqn:E; [reflexivity|]. exfalso.
+    assert (X : ral_source keccak ecrecover s gov data = Some [RZ (rv_echain r); RZ (rv_tchain r); RB (rv_eaddr r); RZ (rv_seq r); RB (rv_payload r)]).
+    { apply ral_source_accepts_iff. exists r, g, n. repeat apply conj; assumption || reflexivity. }
+    congruence.
+Qed.
+
+(* on the bytes the node's Marshal produces: the translated function hashes the node's signing body (the recovery oracle is consulted
+   over the node's digest), reads the signature records the node wrote, and hands back the node's own field values *)
+Theorem ral_source_on_marshal s gov v : wf v ->
+  ral_source keccak ecrecover s gov (marshal v) =
+  if gov && negb (gsidx v =? gs_cur_idx s) then None else
+  match guardians_for s (gsidx v) with
+  | None => None
+  | Some g =>
+    match set_size g with
+    | None => None
+    | Some n =>
+      if n =? 0 then None else
+      if negb (go_quorum n <=? Z.of_nat (length (sigs v))) then None else
+      if recs_ok ecrecover (digest keccak v) g (-1) (map (fun sg => (s_idx sg, s_data sg)) (sigs v))
+      then Some [RZ (echain v); RZ (tchain v); RB (eaddr v); RZ (seq v); RB (payload v)] else None
+    end
+  end.
+Proof.
+  intros W. rewrite ral_source_eq. unfold ral_accepts. rewrite (ral_parse_marshal v W).
+  cbn [rv_gsidx rv_numsigs rv_sig_records rv_hashed rv_echain rv_tchain rv_eaddr rv_seq rv_payload]. unfold digest.
+  destruct (gov && negb (gsidx v =? gs_cur_idx s)); [reflexivity|].
+  destruct (guardians_for s (gsidx v)) as [g|]; [|reflexivity].
+  destruct (set_size g) as [n|]; [|reflexivity].
+  destruct (n =? 0); [reflexivity|]. destruct (go_quorum n <=? Z.of_nat (length (sigs v))); [|reflexivity]. cbn [negb].
+  destruct (recs_ok ecrecover (keccak (keccak (body v))) g (-1) (map (fun sg => (s_idx sg, s_data sg)) (sigs v))); reflexivity.
 Qed.
 
 End Proofs.
